@@ -180,6 +180,8 @@ def run(ctx, args):
     d = ctx.specdir("Membership")
     tab = "Gen_Cert_q.cfg" if quick else "Gen_Cert_t.cfg"
     e3 = [("MC_CertCache.tla", "MC_CertCache_q.cfg"), ("MC_CertCache.tla", "MC_CertCache_q2.cfg")]
+    if not quick:
+        e3.append(("MC_CertCache.tla", "MC_CertCache_t.cfg"))
     wit = [("MC_CertCache.tla", "MC_CertCache_wit_nokeys.cfg", "CacheAgrees"),
            ("MC_CertCache.tla", "MC_CertCache_wit_nothr.cfg", "CacheAgrees"),
            ("MC_CertCache.tla", "MC_CertCache_wit_nomask.cfg", "CacheAgrees"),
